@@ -205,4 +205,52 @@ inductive Derives : List Tok → Sx → Prop
   | circuit {pad body xs} : SeqPad pad → Stmts .header body xs →
       Derives (pad ++ body) (.list (.str "circuit" :: xs))
 
+/-! ## The context-free part
+
+`Syntax ts`: `ts` is a sentence of the context-free grammar alone (sly's 88 productions), i.e. without the
+two side conditions the actions enforce (a literal register size may be any integer, header statements may
+follow body statements) and with the `import … as …` statement, which is syntactically a statement although
+it is never accepted. The position of a SYNTAX error is determined by this part only: `Viable`. -/
+
+/-- `register name[size]` with any size -/
+inductive RegisterAny : List Tok → Prop
+  | mk (n : String) {sz szx} : LetOrInt sz szx → RegisterAny [.REG, .IDENTIFIER n, .lbrack, sz, .rbrack]
+
+/-- `import a as b` -/
+inductive ImportStmt : List Tok → Prop
+  | mk (a b : String) : ImportStmt [.IMPORT, .IDENTIFIER a, .AS, .IDENTIFIER b]
+
+/-- A top-level statement, syntax only. -/
+inductive TopSyn : List Tok → Prop
+  | header {s x} : Header s x → TopSyn s
+  | body {s x} : Body s x → TopSyn s
+  | register {s} : RegisterAny s → TopSyn s
+  | importStmt {s} : ImportStmt s → TopSyn s
+
+/-- `top_statements`, syntax only. -/
+inductive StmtsSyn : List Tok → Prop
+  | nil : StmtsSyn []
+  | last {s} : TopSyn s → StmtsSyn s
+  | cons {s sep rest} : TopSyn s → SeqSep sep → StmtsSyn rest → StmtsSyn (s ++ sep ++ rest)
+
+/-- `ts` is a sentence of the context-free grammar. -/
+inductive Syntax : List Tok → Prop
+  | circuit {pad body} : SeqPad pad → StmtsSyn body → Syntax (pad ++ body)
+
+/-- `ts` can be continued to a sentence of the context-free grammar. -/
+def Viable (ts : List Tok) : Prop := ∃ rest, Syntax (ts ++ rest)
+
+theorem Stmts.syntax {ph ts xs} (h : Stmts ph ts xs) : StmtsSyn ts := by
+  induction h with
+  | nil => exact .nil
+  | lastHeader hh => exact .last (.header hh)
+  | lastBody hb => exact .last (.body hb)
+  | consHeader hh hsep _ ih => exact .cons (.header hh) hsep ih
+  | consBody hb hsep _ ih => exact .cons (.body hb) hsep ih
+
+/-- Every program is a sentence of the context-free part. -/
+theorem Derives.syntax {ts t} (h : Derives ts t) : Syntax ts := by
+  cases h with
+  | circuit hpad hbody => exact .circuit hpad hbody.syntax
+
 end Jaqal.Grammar
